@@ -149,6 +149,16 @@ func (r *renderer) Text(txt []byte, inURL, isSet bool) error {
 // showInURL shows v in a URL in the given context.
 func (r *renderer) showInURL(env *env, v any, ctx ast.Context) error {
 
+	// In a Markdown URL the type checker also accepts the Markdown stringers.
+	if ctx == ast.ContextMarkdown {
+		switch m := v.(type) {
+		case native.MarkdownStringer:
+			v = string(m.Markdown())
+		case native.MarkdownEnvStringer:
+			v = string(m.Markdown(env))
+		}
+	}
+
 	var b strings.Builder
 	err := showInHTML(env, &b, v)
 	if err != nil {
